@@ -99,33 +99,51 @@ def py_proof(run, prop, args):
         lang = py_leg.py_lang()
         types = sorted(PP.flatten_types(pydsdl.read_namespace(str(PP.CORPUS / "vk"), [])), key=str)
         jobs = []
+        direction = "ser" if prop == "C01" else "des"
+        outside = {}
         for i, t in enumerate(types):
             m, c = py_leg.mod_cls(lang, t)
-            jobs.append((i, str(PP.CORPUS / "vk"), t.full_name, (t.version.major, t.version.minor), (work / (m.replace(".", "/") + ".py")).read_text(), m, c, str(SRC)))
-        with multiprocessing.get_context("fork").Pool(min(14, len(jobs))) as pool:
-            out = pool.map(pyprog.generate if prop == "C01" else pyprog.generate_des, jobs, chunksize=1)
+            text = (work / (m.replace(".", "/") + ".py")).read_text()
+            try:
+                cases = pyprog.cases_of(t, direction)
+            except pyprog.NotInSubset as ex:
+                outside[str(t)] = f"not in the subset: {ex}"
+                continue
+            for sh, inv in cases:
+                jobs.append((i, direction, sh, inv, str(PP.CORPUS / "vk"), t.full_name, (t.version.major, t.version.minor), text, m, c, str(SRC)))
+        with multiprocessing.get_context("fork").Pool(14) as pool:
+            out = pool.map(pyprog.generate_case, jobs, chunksize=1)
     finally:
         shutil.rmtree(work, ignore_errors=True)
     obs = []
-    outside = {}
-    for idx, target, o, info, err in out:
+    per_type = {}
+    for idx, target, o, info, kind, err in out:
         t = types[idx]
-        if err:
-            if err.startswith("not in the subset"):
-                outside[str(t)] = err
-            else:
-                run.undecide(f"py:{t}: {err[:300]}")
+        d = per_type.setdefault(str(t), {"cases": 0, "obs": 0, "returns": 0, "outside": [], "assumed": set()})
+        if kind == "outside":
+            d["outside"].append(err)
             continue
-        if info.get("shapes_outside_the_subset"):
-            outside[str(t)] = f"{len(info['shapes_outside_the_subset'])} of {info['shapes'] + len(info['shapes_outside_the_subset'])} shapes: {info['shapes_outside_the_subset'][0]}"
-        if len(o) + info.get("trivial", 0) == 0 or info.get("returns", 0) == 0:
-            run.undecide(f"py:{t}: vacuity guard (obligations={len(o)}, normal exits={info.get('returns', 0)})")
-        run.add_function(f"generated Python {t}.{'_serialize_' if prop == 'C01' else '_deserialize_'} ({info['shapes']} shapes/cases, {len(o)} obligations)")
-        for a in info.get("assumed", []):
-            run.assume("py: " + a)
+        if kind == "undecided":
+            run.undecide(f"py:{t}: {err[:300]}")
+            continue
+        d["cases"] += 1
+        d["obs"] += len(o)
+        d["returns"] += info.get("returns", 0) + (info.get("raises", 0) if direction == "des" else 0)
+        d["assumed"].update(info.get("assumed", []))
+        if len(o) + info.get("trivial", 0) == 0:
+            run.undecide(f"py:{t}: a case generated no obligation (vacuity guard)")
         for x in o:
             x.name = "py:" + x.name
         obs.extend(o)
+    for tn, d in sorted(per_type.items()):
+        if d["cases"]:
+            if d["returns"] == 0:
+                run.undecide(f"py:{tn}: no path reaches an exit (vacuity guard)")
+            run.add_function(f"generated Python {tn}.{'_serialize_' if prop == 'C01' else '_deserialize_'} ({d['cases']} shapes/cases, {d['obs']} obligations)")
+            for a in sorted(d["assumed"]):
+                run.assume("py: " + a)
+        if d["outside"]:
+            outside[tn] = f"{len(d['outside'])} of {d['cases'] + len(d['outside'])} shapes/cases: {d['outside'][0]}"
     res = smt.solve_all_batched(obs)
     run.add_results(res)
     run.notes["python_serializers_not_under_contract" if prop == "C01" else "python_deserializers_not_under_contract"] = outside
